@@ -188,14 +188,26 @@ func Drive(ctx context.Context, s *hx.Session, sc Scenario, sched []int, header 
 	if err := dump(-1); err != nil {
 		return nil, err
 	}
+	midWas := map[int]string{}
 	one := func(i int) error {
 		w := r.W[i]
 		was := w.State
+		if mw, ok := midWas[i]; ok {
+			was = mw // the writer resumes from a sub-gate: this completes the step it was in
+			delete(midWas, i)
+		}
 		moved, err := r.Step(i)
 		if err != nil {
 			return err
 		}
 		if !moved {
+			return nil
+		}
+		if w.State == "parked" && strings.HasPrefix(w.ParkedAt, "sub:") {
+			// parked INSIDE a model step (holding its node locks): the step's protocol line is written when the writer
+			// reaches its next model gate; the steps other writers make meanwhile are written in their real order
+			midWas[i] = was
+			hits = append(hits, "sub_park:"+w.ParkedAt[4:])
 			return nil
 		}
 		o.Steps++
